@@ -195,7 +195,7 @@ fn main() {
     // "large": most runs carry filler records and cross 0x3FFF / approach 0xFFFF
     let large = args.get(4).map(|s| s == "large").unwrap_or(false);
     let comps = ["none", "static", "tree", "hash"];
-    let tgts = ["vec", "bytes", "array", "stream", "stream", "vec"];
+    let tgts = ["vec", "bytes", "array", "stream", "stream", "vec", "sarray"];
     let mut run_no = 0u64;
     let mut panics = 0u64;
     while w.n < max {
@@ -204,7 +204,7 @@ fn main() {
         run_no += 1;
         let pool = name_pool(&mut rng);
         // some runs are meant to grow large
-        let grow = large && tgt != "array" && rng.chance(3, 4);
+        let grow = large && tgt != "array" && tgt != "sarray" && rng.chance(3, 4);
         let spec_tgt = if tgt == "bytes" { "vec" } else { tgt };
         w.event(json!({"ev": "new", "comp": comp, "tgt": spec_tgt, "real_tgt": tgt,
                        "cap": cap_of(tgt)}));
